@@ -1,5 +1,5 @@
 """property id -> rules"""
-from rules import task_constraints, tasks, optional, logic, resources, resource_constraints, completeness, indicators, buffers, driver, solution
+from rules import task_constraints, tasks, optional, logic, resources, resource_constraints, completeness, indicators, buffers, driver, solution, exports
 from sa.selftest import self_test_rule
 
 NOTES = ("Every check decides structural clauses (necessary conditions) of its property from /repo's source as parsed on "
@@ -8,6 +8,37 @@ NOTES = ("Every check decides structural clauses (necessary conditions) of its p
 NOT_APPLICABLE = {}
 
 PROPERTIES = {
+    "C16": {
+        "rules": exports.C16_RULES,
+        "thorough": [self_test_rule("C16")],
+        "level_text": "The correspondence tables and coordinate arithmetic of the exporters are decided on the extracted IR: "
+                      "every data-frame column is fed, one row per task of the unfiltered dict, from the TaskSolution attribute of "
+                      "its label; to_csv writes exactly to_df(); both Gantt worksheets place an item at row index+1, first column "
+                      "start+1, last column end, merged iff end - start > 1, with the documented text, unscheduled tasks skipped; "
+                      "the indicators sheet writes (name, value) per indicator; export_to_smt2 serialises the very handle check() "
+                      "runs on with a method that exists on every class the handle can hold (library surface read from the z3 "
+                      "module); to_json excludes only `problem`, the solution models hide no field, the JSON type registry maps "
+                      "names to the classes of those names.",
+        "level_note": "NOT decided: byte-level content of what pydantic / pandas / xlsxwriter write, JSON round-trip equality, "
+                      "and that the SMT-LIB text is satisfiable exactly when the problem is (z3 printer/parser).",
+        "explanation": "Static analysis of solution.py / excel_io.py / solver.py / base.py / problem.py: IR extraction of the "
+                       "calls made to the export libraries and canonical-form comparison of their arguments.",
+    },
+    "C17": {
+        "rules": exports.C17_RULES,
+        "thorough": [self_test_rule("C17")],
+        "level_text": "Per render mode, the multiplicity and arithmetic of the drawing calls are decided on the extracted IR: "
+                      "Task mode draws exactly one bar per element of get_scheduled_tasks() (none for unscheduled tasks), Resource "
+                      "mode one per element of every resource's assignments, unconditionally; the bar's x-extent is (start, length) "
+                      "with a centred marker of positive constant width for zero length, the label sits at start + length/2; the row "
+                      "is (2i, 2) with i the enumerate index of the same dict whose keys label the ticks; the buffer step plot uses "
+                      "x = [0] + change times + [horizon] with segment k at level[k].",
+        "level_note": "The matplotlib contract broken_barh([(xmin, width)], (ymin, height)) / text(x, y) is a small trusted "
+                      "table. NOT decided: that rendering succeeds for every solution and what matplotlib rasterises. The plotly "
+                      "renderer is not covered (its tests are failing in the baseline: plotly is not installed).",
+        "explanation": "Static analysis of plotter.py:render_gantt_matplotlib on the extracted IR (loops, guards and argument "
+                       "terms of the draw calls), canonical linear forms for the coordinates.",
+    },
     "C11": {
         "rules": solution.RULES,
         "thorough": [self_test_rule("C11")],
